@@ -26,6 +26,14 @@ let () =
   let st : frec option ref = ref None in
   let init : (dd list * int * (int * int * int)) option ref = ref None in
   let aids = Hashtbl.create 16 and vss = Hashtbl.create 16 and vgs = Hashtbl.create 16 in
+  let sdst : sd option ref = ref None in
+  let sd_mut = [ "sdcreate", 0; "sdsetdimname", 1; "sdsetrange", 2; "sdsetattr", 3; "sdsetdatastrs", 4; "sdsetcal", 5;
+                 "sdsetfillvalue", 6; "sdsetdimstrs", 7; "sdsetdimscale", 8; "sdsetdimval_comp", 9; "sdwritedata", 10;
+                 "sdwritedim", 10; "sdsetexternalfile", 11; "sdsetcompress", 12; "sdsetchunk", 13; "sdsetnbitdataset", 14;
+                 "sdwritechunk", 15 ] in
+  let sd_readers = [ "sdselect"; "sdendaccess"; "sdreaddata"; "sdreadattr"; "sdinfo"; "sdfileinfo"; "sdnametoindex"; "sdfindattr";
+                     "sdreadchunk"; "sdsetchunkcache"; "sdsetblocksize"; "sdsetaccesstype" ] in
+  let rec nat_of_int n = if n <= 0 then O else S (nat_of_int (n - 1)) in
   let reset () = st := None; Hashtbl.reset aids; Hashtbl.reset vss; Hashtbl.reset vgs in
   List.iteri (fun i line ->
     let ln = i + 1 in
@@ -48,9 +56,29 @@ let () =
     let aid k = match Hashtbl.find_opt aids (num k) with Some a -> z a | None -> z (-7) in
     let vkey tblv k = match Hashtbl.find_opt tblv (num k) with Some a -> z a | None -> z (-7) in
     let rref () = match field "ref=" with Some s -> (match int_of_string_opt s with Some v -> v | None -> -5) | None -> -5 in
+    (* SD guard-structure model: read-only SDstart sessions on slot 0 (the L1 calls inside an SD function are not
+       visible from here; on a read-only handle the model's answer does not depend on them) *)
+    let sd_modelled o =
+      match !sdst with
+      | Some sds when (match r with "ok" :: _ | "fail" :: _ -> true | _ -> false) ->
+        let ((s', res), w) = sd_step sds o in
+        sdst := (if s_open s' then Some s' else None);
+        Printf.printf "%d M %s %s\n" ln (if iz res <> -1 then "ok" else "fail") (if w = [] then "w0" else "w1")
+      | _ -> Printf.printf "%d -\n" ln in
     match t with
+    | "sdstart" :: "0" :: _ ->
+      (match !init, r with
+       | Some (dds, e, (a, b, c)), "ok" :: _ when (num 3) land 6 = 0 ->
+         sdst := Some (sdstart (z (num 3)) dds (z e) ((z a, z b), z c)); Printf.printf "%d M ok w0\n" ln
+       | _ -> sdst := None; Printf.printf "%d -\n" ln)
+    | "sdend" :: "0" :: _ -> sd_modelled (SEnd ([], [], []))
+    | "sdsetfillmode" :: "0" :: _ -> sd_modelled (SSetFill [])
+    | "sdgetdimscale" :: _ -> sd_modelled (SGetDimScale [])
+    | name :: _ when List.mem_assoc name sd_mut && (name <> "sdcreate" || num 2 = 0) && (name <> "sdsetattr" || num 1 <> 0 || num 2 = 0) ->
+      sd_modelled (SMut (nat_of_int (List.assoc name sd_mut), []))
+    | name :: _ when List.mem name sd_readers -> sd_modelled (SRead [])
     | [] -> Printf.printf "%d -\n" ln
-    | "history" :: _ -> reset (); init := None; Printf.printf "%d -\n" ln
+    | "history" :: _ -> reset (); init := None; sdst := None; Printf.printf "%d -\n" ln
     | "ddlist" :: _ ->
       (match field "end=", field "ver=", field "dds=" with
        | Some e, Some v, dds ->
@@ -70,7 +98,7 @@ let () =
        | _ -> reset (); init := None; Printf.printf "%d -\n" ln)
     | "hopen" :: _ -> reset (); init := None; Printf.printf "%d -\n" ln      (* a second open: outside the model *)
     | "hclose" :: "0" :: _ -> modelled OClose nobind; (match !st with Some f when not (f_open f) -> reset (); init := None | _ -> ())
-    | "closeall" :: _ -> reset (); init := None; Printf.printf "%d -\n" ln
+    | "closeall" :: _ -> reset (); init := None; sdst := None; Printf.printf "%d -\n" ln
     | "startaccess" :: _ -> modelled (OStartAccess (z (num 3), z (num 4), z (num 5))) (fun id -> Hashtbl.replace aids (num 1) id)
     | "startread" :: _ -> modelled (OStartAccess (z (num 3), z (num 4), z 1)) (fun id -> Hashtbl.replace aids (num 1) id)
     | "startwrite" :: _ -> modelled (OStartWrite (z (num 3), z (num 4), z (num 5))) (fun id -> Hashtbl.replace aids (num 1) id)
